@@ -115,7 +115,8 @@ HARNESSES += [
 ]
 import gen_rules as _gr  # noqa: E402
 HARNESSES += [
-    H("c04c02_unit_" + u[0], ["C04", "C02"], weight=30, timeout=1200, replay="l2", unit=u[0])
+    H("c04c02_unit_" + u[0], ["C04", "C02"], weight=30, timeout=1200, replay="l2", unit=u[0],
+      unwind_is_violation=True, unwind_replay="l2")
     for u in _gr.UNITS
 ] + [
     H("c04_gen_" + u[0], ["C04"], weight=30, timeout=1200, replay="l2", unit=u[0])
